@@ -720,7 +720,7 @@ func run(r *ev.Run) {
 			timedOut := false
 			select {
 			case werr = <-done:
-			case <-time.After(25 * time.Minute):
+			case <-time.After(time.Duration(r.Scale(25, 90)) * time.Minute):
 				timedOut = true
 				_ = cmd.Process.Kill()
 				<-done
